@@ -58,6 +58,11 @@ def validate(ctx, col, mode, runs, maxkeys, calls, kinds, tag=None):
         ctx.fail(sig, what, {"tool": "drive", "args": {"seed": ctx.seed, "runs": runs, "maxkeys": maxkeys, "calls": calls,
                                                         "mode": mode, "kinds": kinds}, "run": meta["run"], "trace_line": ln,
                              "violation": viol, "variant": meta["variant"]})
+    for pn in summary.get("panics") or []:
+        ctx.fail("%s: panic @%s" % (pn.get("kind"), pn.get("site")),
+                 "random run %d (seed %d, mode %s) panicked in the code under test: %s" % (pn.get("run"), ctx.seed, mode, pn.get("msg")),
+                 {"tool": "drive", "args": {"seed": ctx.seed, "runs": runs, "maxkeys": maxkeys, "calls": calls, "mode": mode,
+                                            "kinds": kinds}, "run": pn.get("run"), "query": pn.get("query")})
     ctx.traces_validated += summary.get("streams", 0)
     ctx.evaluations += summary.get("events", 0)
     for k in ("streams", "events", "lists_multiblock", "lists_exactfit", "lists_padded", "lists_multins"):
